@@ -39,9 +39,11 @@ def gen_recipe(rng, fmt, tier="quick"):
         "freq": {"kind": rng.choice(["log", "log", "lin"]), "f0": rng.choice([0.04, 0.05, 0.0625]), "r": rng.choice([1.1, 1.2, 1.3]), "df": rng.choice([0.02, 0.03])},
         "dir": {"dir0": rng.choice([0.0, 0.0, 5.0, 10.0]), "order": rng.choice(["asc", "asc", "desc", "rot", "shuf"]), "shift": rng.randint(1, 3), "seed": rng.randrange(100)},
         "dtype": rng.choice(["float64", "float64", "float32"]),
-        "data": {"kind": rng.choice(["peaked", "random", "decades", "int_bumps"]), "seed": rng.randrange(10**6), "zero_at": -1, "nan_at": -1},
+        "data": {"kind": rng.choice(["peaked", "random", "decades", "int_bumps", "int_bumps", "huge", "tiny", "single_bin"]), "seed": rng.randrange(10**6), "zero_at": -1, "nan_at": -1},
         "spec_last": True, "round_freq": 5,
-        "t0": rng.choice(["2020-01-01T00:00:00", "1999-12-31T23:00:00", "2021-06-15T12:30:00"]),
+        "t0": rng.choice(["2020-01-01T00:00:00", "1999-12-31T23:00:00", "2021-06-15T12:30:00", "1969-12-31T22:00:00", "2040-02-28T23:00:00", "1950-06-30T23:59:00"]),
+        "time_irregular": rng.random() < 0.2,
+        "with_winds": rng.random() < 0.3,
         "dt_s": rng.choice([3600, 1800, 10800, 60, 7, 86400]),
         "lon0": rng.choice([150.0, 0.0, 170.5, 359.0 - 6, -20.0]), "lat0": rng.choice([-30.0, 0.0, 45.25, -75.0]),
         "dlon": rng.choice([0.25, 0.5, 1.0]), "dlat": rng.choice([0.25, 0.5, 1.0]),
@@ -96,6 +98,10 @@ def gen_recipe(rng, fmt, tier="quick"):
         r["nd"] = rng.choice([4, 6, 8, 9, 12, 24, 36])
         r["dir"]["order"] = rng.choice(["asc", "asc", "rot", "shuf"])
         r["dtype"] = "float64"
+        if r["data"]["kind"] in ("huge", "single_bin"):
+            # amplitudes >= 100 m do not fit the format's fixed %12.8f columns (no separator is written):
+            # outside what the format can express, and far outside physical wave spectra
+            r["data"]["kind"] = "decades"
     has_site = any(k == "site" for k, _ in r["dims"])
     if base in ("swan", "octopus") and has_site:
         r["lonlat"] = rng.choice(["coords", "coords", "vars", "absent_args", "absent"])
@@ -109,6 +115,13 @@ def gen_recipe(rng, fmt, tier="quick"):
     npos = int(np.prod([n for _, n in r["dims"]] or [1]))
     if base in ("swan", "json", "netcdf", "ww3", "octopus") and npos > 0 and rng.random() < 0.3:
         r["data"]["zero_at"] = rng.randrange(npos)
+    if npos > 0 and rng.random() < 0.25 and base != "funwave":
+        r["data"]["calm_at"] = rng.randrange(npos)
+        r["data"]["calm_scale"] = rng.choice([1e-5, 1e-7, 1e-9, 1e-15])
+    if base in ("json", "swan", "netcdf") and rng.random() < 0.08:
+        # whole-second time stamps outside the range of nanosecond datetimes
+        r["time_unit"] = "s"
+        r["t0"] = rng.choice(["2299-12-31T18:00:00", "1600-05-06T07:08:09", "2500-01-01T00:00:00"])
     if base in ("swan", "json", "netcdf", "ww3") and npos > 1 and rng.random() < 0.3:
         r["data"]["nan_at"] = rng.randrange(npos)
         if r["data"]["nan_at"] == r["data"]["zero_at"]:
@@ -163,7 +176,7 @@ def shape(plan):
 def expected_dataset(recipe, fmt):
     """(dataset to write, extra writer kwargs, (lon, lat) expected per site or None)."""
     r = dict(recipe)
-    ds = D.make_dataset(r, winds=fmt.startswith("octopus"))
+    ds = D.make_dataset(r, winds=fmt.startswith("octopus") or bool(r.get("with_winds")))
     nd = r.get("round_freq")
     if nd is not None:
         ds = ds.assign_coords(freq=np.round(ds["freq"].values, nd).astype(ds["freq"].dtype))
@@ -269,6 +282,16 @@ def features(st, history):
         f.append("lon-descending")
     if r["dir"].get("north360"):
         f.append("north-as-360")
+    if r.get("time_irregular") and nt > 2:
+        f.append("uneven-time-steps")
+    if r.get("with_winds") and not st["fmt"].startswith("octopus"):
+        f.append("with-winds")
+    if r["data"]["kind"] in ("huge", "tiny", "single_bin"):
+        f.append(r["data"]["kind"] + "-values")
+    if r["data"].get("calm_at", -1) >= 0:
+        f.append("calm-spectrum")
+    if r.get("time_unit", "ns") != "ns":
+        f.append("times-beyond-ns-range")
     if st["fmt"].startswith("funwave") and r.get("nd", 0) > 1:
         from simkit.data import make_dir
 
@@ -375,9 +398,12 @@ def compare_roundtrip(fmt, recipe, exp, got, _depth=0, lonlat=None):
         if sorted(order.tolist()) != list(range(len(dg))) or dist[np.arange(len(de)), order].max() > dtol + 1e-12:
             return "dir", f"directions differ: read {np.asarray(got['dir'].values)[:6]} written {np.asarray(exp['dir'].values)[:6]}"
     if "time" in lead:
-        tg = np.asarray(got["time"].values).astype("datetime64[ns]").astype("int64")
-        te = np.asarray(exp["time"].values).astype("datetime64[ns]").astype("int64")
+        unit = "us" if recipe.get("time_unit", "ns") != "ns" else "ns"
+        tg = np.asarray(got["time"].values).astype(f"datetime64[{unit}]").astype("int64")
+        te = np.asarray(exp["time"].values).astype(f"datetime64[{unit}]").astype("int64")
         ttol = {"ww3": 10**6, "netcdf": 10**6}.get(base, 0)  # double days/seconds -> < 1 ms
+        if unit == "us":
+            ttol = ttol // 1000
         if np.abs(tg - te).max() > ttol:
             return "time", f"times differ: read {got['time'].values[:3]} written {exp['time'].values[:3]}"
     ctol = {"swan": 5.1e-7, "octopus": 5.1e-7}.get(base, 0.0)
@@ -623,6 +649,10 @@ def simplify(plan):
         variant(lambda s: s["recipe"].pop("lat_desc", None))
         variant(lambda s: s["recipe"].pop("lon_desc", None))
         variant(lambda s: s["recipe"]["dir"].pop("north360", None))
+        variant(lambda s: s["recipe"].update(time_irregular=False))
+        variant(lambda s: s["recipe"].update(with_winds=False))
+        variant(lambda s: s["recipe"].update(t0="2020-01-01T00:00:00", time_unit="ns"))
+        variant(lambda s: s["recipe"]["data"].update(calm_at=-1))
         variant(lambda s: s["recipe"]["dir"].update(dir0=0.0))
         variant(lambda s: s["recipe"]["data"].update(zero_at=-1))
         variant(lambda s: s["recipe"]["data"].update(nan_at=-1))
